@@ -135,6 +135,34 @@ type Rig struct {
 	GRule  router.Rule
 	Seq    *sequence.SequenceManager
 	P      *parser.Parser
+
+	// copies taken when the router was built: the rig must keep working (and be able to
+	// tell) when a statement damages the router's own lists
+	subIdx  []int
+	gSubIdx []int
+}
+
+// Intact reports whether the sub-table lists of the rules of t and g are still what they
+// were when the router was built.
+func (r *Rig) Intact() (bool, string) {
+	same := func(a, b []int) bool {
+		if len(a) != len(b) {
+			return false
+		}
+		for i := range a {
+			if a[i] != b[i] {
+				return false
+			}
+		}
+		return true
+	}
+	if now := r.Rule.GetSubTableIndexes(); !same(now, r.subIdx) {
+		return false, fmt.Sprintf("the sub-table list of t's rule changed from %v to %v", r.subIdx, now)
+	}
+	if now := r.GRule.GetSubTableIndexes(); !same(now, r.gSubIdx) {
+		return false, fmt.Sprintf("the sub-table list of g's rule changed from %v to %v", r.gSubIdx, now)
+	}
+	return true, ""
 }
 
 func New(l Layout) (*Rig, error) { return NewWithParser(l, parser.New()) }
@@ -153,6 +181,8 @@ func NewWithParser(l Layout, p *parser.Parser) (*Rig, error) {
 	if r.GRule, ok = rt.GetShardRule(LogicDB, "g"); !ok {
 		return nil, fmt.Errorf("no rule for g")
 	}
+	r.subIdx = append([]int{}, r.Rule.GetSubTableIndexes()...)
+	r.gSubIdx = append([]int{}, r.GRule.GetSubTableIndexes()...)
 	return r, nil
 }
 
@@ -258,7 +288,7 @@ func (r *Rig) NewStore(rows []Row) (*Store, error) {
 	s.Union.Add(ug)
 	pt := map[int]*sqlref.Table{}
 	pt2 := map[int]*sqlref.Table{}
-	for _, idx := range r.Rule.GetSubTableIndexes() {
+	for _, idx := range r.subIdx {
 		slice, db, suf := r.Where(idx)
 		sd := s.Shards[slice]
 		if sd == nil {
@@ -314,11 +344,11 @@ func (r *Rig) NewStore(rows []Row) (*Store, error) {
 		}
 		sd.Add(&sqlref.Table{DB: db, Name: "g", Cols: gCols(), Rows: append(make([][]sqlref.Value, 0, len(ug.Rows)), ug.Rows...)})
 	}
-	for _, idx := range r.Rule.GetSubTableIndexes() {
+	for _, idx := range r.subIdx {
 		slice, db, _ := r.Where(idx)
 		place(slice, db)
 	}
-	for _, idx := range r.GRule.GetSubTableIndexes() {
+	for _, idx := range r.gSubIdx {
 		db, _ := r.GRule.GetDatabaseNameByTableIndex(idx)
 		place(r.GRule.GetSlice(r.GRule.GetSliceIndexFromTableIndex(idx)), db)
 	}
